@@ -237,13 +237,17 @@ RowsDoc(form, ver, fr) ==
                                   <<<<Ld, <<0>>>>, <<Ld, N1d>>, <<<<0>>, N1d>>>>)
          [] form = "omit_all" -> g("array", <<<<>>, Row2(Lt, N1t)>>, <<<<<<0>>, <<0>>>>, <<Ld, N1d>>>>)
          [] form = "nullcell" -> g("array", <<Row2(JNull, N1t), Row2(Lt, JNull)>>, <<<<<<0>>, N1d>>, <<Ld, <<0>>>>>>)
+         \* the same row twice (a pre-decoded document may list ONE row object twice): strings that look like
+         \* encoded values once their prefix is taken off
+         [] form = "dup"     -> g("array", <<Row2(TS("s:s:x"), TS("s:n:5")), Row2(TS("s:s:x"), TS("s:n:5"))>>,
+                                  <<<<Str(C("s:x")), Str(C("n:5"))>>, <<Str(C("s:x")), Str(C("n:5"))>>>>)
          \* the same liberties one level down: a grid in a cell that leaves its rows out is still a grid
          [] form \in {"nested_missing", "nested_null", "nested_empty"} ->
               LET mode == CASE form = "nested_missing" -> "missing" [] form = "nested_null" -> "null" [] OTHER -> "array"
                   ng == BuildGrid(ver, fr, <<<<C("inner"), TS("m:")>>>>, ColsXYT, mode, <<>>)
                   nd == <<18, ver, <<<<C("inner"), <<1>>>>>>, ColsXYT, <<>>>>
               IN g("array", <<Row2(Lt, ng), Row2(ng, N1t)>>, <<<<Ld, nd>>, <<nd, N1d>>>>)
-RowsForms == {"missing", "null", "empty", "omit", "omit_all", "nullcell"}
+RowsForms == {"missing", "null", "empty", "omit", "omit_all", "nullcell", "dup"}
 NestedRowsForms == {"nested_missing", "nested_null", "nested_empty"}
 
 \* two spelt values side by side: adjacent cells, or adjacent list elements
